@@ -490,6 +490,13 @@ impl SchedulerIncoming for Scheduler {
                 if let Some((server_id, server_details)) = best.or(best_err) {
                     let job_count = self.job_count.fetch_add(1, Ordering::SeqCst) as u64;
                     let job_id = JobId(job_count);
+                    // Create the token before reserving the slot: returning the error after the
+                    // job was put into jobs_assigned would leave it there with nobody to remove it
+                    let auth = server_details
+                        .job_authorizer
+                        .generate_token(job_id)
+                        .map_err(Error::from)
+                        .context("Could not create an auth token for this job")?;
                     assert!(server_details.jobs_assigned.insert(job_id));
                     assert!(server_details
                         .jobs_unclaimed
@@ -500,11 +507,6 @@ impl SchedulerIncoming for Scheduler {
                         "Job {} created and will be assigned to server {:?}",
                         job_id, server_id
                     );
-                    let auth = server_details
-                        .job_authorizer
-                        .generate_token(job_id)
-                        .map_err(Error::from)
-                        .context("Could not create an auth token for this job")?;
                     Some((job_id, server_id, auth))
                 } else {
                     None
